@@ -23,8 +23,10 @@ def chunked(name, typ, items, n=32):
 
 
 def qual(fn):
-    """qualified name of the function object implementing a method"""
+    """qualified name of the function object implementing a method / property"""
     f = getattr(fn, "__func__", fn)
+    if isinstance(f, property):
+        f = f.fget
     return getattr(f, "__qualname__", repr(f))
 
 
